@@ -245,7 +245,12 @@ def check_case(case, res: Result):
                             break
                         if running >= 2 or rig.errors:
                             break
-                    if activated or running >= 2:
+                    aborted = any(e[1] == "interrupt_registered" and e[5] is False and e[6] == id(node)
+                                  for e in R.TRACE[n_tr0:])
+                    if aborted and not activated:
+                        # the enclosing Block ended (its interrupts are aborted) before the forced Watch could run
+                        res.count("unjudged_force_watch_aborted_by_block_end")
+                    elif activated or running >= 2:
                         judged = True
                         res.count("rule_force_watch")
                         if not activated:
